@@ -92,6 +92,10 @@ STMTS = [
     ("if-grouped", ["if (({e}) > 0) r = ({f})"], set()),
     ("call-grouped", ["call usub(2 * ({e} + 1))"], {"usub"}),
     ("block", ["block", "  integer :: bl", "  bl = {e}", "end block"], set()),
+    # entities local to a BLOCK construct: arrays, a nested block, a type defined inside
+    ("block-array", ["block", "  integer :: blarr(3), blb", "  real, dimension(2) :: blc", "  blarr(1) = {e}", "  r = blarr(2) + int(blc(1))", "end block"], set()),
+    ("block-nested", ["block", "  integer :: blo(2)", "  block", "    integer :: bli(2)", "    bli(1) = blo(1) + {e}", "  end block", "  r = blo(2)", "end block"], set()),
+    ("block-type", ["block", "  type btype", "    integer :: bq(2)", "  end type btype", "  type(btype) :: bv", "  bv%bq(1) = {e}", "  r = bv%bq(2)", "end block"], set()),
     ("print", ["print *, {e}, {f}"], set()),
     ("write", ["write(*,*) {e}"], set()),
     ("write-fmt", ["write(s, '(i0)') {e}"], set()),
